@@ -44,21 +44,24 @@
     "ALIAS_CA=1",
     "NDSHIFT=1"
    ],
-   "tier": "thorough"
+   "tier": "parked",
+   "parked_reason": "timeout 400 s"
   },
   {
    "name": "digit1_distinct",
    "defs": [
     "NDSHIFT=1"
    ],
-   "tier": "thorough"
+   "tier": "parked",
+   "parked_reason": "timeout 400 s"
   },
   {
    "name": "digit2_distinct",
    "defs": [
     "NDSHIFT=2"
    ],
-   "tier": "thorough"
+   "tier": "parked",
+   "parked_reason": "timeout 400 s"
   }
  ],
  "native_replay": true,
